@@ -24,13 +24,16 @@ RULE = (
     "output bytes, stderr. non-trivial = distinct argv / distinct (file, target, options)"
 )
 TRUSTED = [
-    "the ast translator harness/vh/flowlib.py (__main__.py -> Gen/ApiFlow.lean: convert, main, signatures, argparseTable)",
+    "the ast translator harness/vh/flowlib.py (__main__.py -> Gen/ApiFlow.lean: convert, main, signatures, argparseTable; "
+    "every except / suppress / errstate / seterr of the package -> Gen/Handlers.lean)",
 ]
 ASSUMPTIONS = [
     "argparse semantics for the option kinds used (value option, store_true, positionals); abbreviations (--inf), "
     "`--opt=value` and clustered short flags are not modelled (not generated)",
-    "numpy floating-point traps only turn silent inf/nan into exceptions, they never change a returned value "
-    "(tied by the subprocess search: exit 0 => same bytes as the untrapped API)",
+    "numpy floating-point traps only turn silent inf/nan into exceptions (numpy semantics); that no code of the package "
+    "intercepts such an exception without re-raising, nor changes the error mode, is theorem fp_traps_never_swallowed over "
+    "the generated handler table; the subprocess search additionally runs generated inputs that do raise floating-point "
+    "flags (zero cell volume, overflow, null shells in un-normalised Molden files)",
     "an exception leaving main() ends the interpreter with a traceback on stderr and exit status 1",
 ]
 TIME_LIMIT = {"quick": 900, "thorough": 3600}
@@ -39,6 +42,7 @@ TIME_LIMIT = {"quick": 900, "thorough": 3600}
 def translate(ctx):
     fl.translate_apiflow(ctx)
     fl.translate_registry(ctx)
+    fl.translate_handlers(ctx)
 
 
 def _impl_cli(argv):
@@ -202,6 +206,28 @@ def _api_run(infile, outpath, many, infmt, outfmt, allow, pre):
     return err, content
 
 
+def _convert_run(infile, outpath, many, infmt, outfmt, allow, pre):
+    import numpy as np
+
+    from iodata.__main__ import convert
+
+    if pre is not None:
+        with open(outpath, "w") as fh:
+            fh.write(pre)
+    old = np.geterr()
+    with warnings.catch_warnings():
+        warnings.simplefilter("ignore")
+        try:
+            convert(infile, outpath, many, infmt, outfmt, allow)
+            err = None
+        except Exception as exc:  # noqa: BLE001
+            err = type(exc).__name__
+        finally:
+            np.seterr(**old)
+    content = open(outpath, "rb").read() if os.path.exists(outpath) else None
+    return err, content
+
+
 def _cli_run(infile, outpath, many, infmt, outfmt, allow, pre):
     if os.path.exists(outpath):
         os.unlink(outpath)
@@ -224,9 +250,57 @@ def _cli_run(infile, outpath, many, infmt, outfmt, allow, pre):
     return p.returncode, content, p.stderr
 
 
+def _degenerate_inputs(rng):
+    """Generated inputs on which numpy raises a floating-point flag somewhere in the loader or writer — the only
+    inputs on which the trapping CLI and the non-trapping API can take different paths."""
+    import numpy as np
+
+    from .. import gto
+    from .. import vendorfiles as vf
+
+    out = {}
+    grid = " 2 2 2\n" + " ".join(["1.0"] * 8) + "\n"
+    out["CHGCAR.zerovol"] = ("zero volume\n 1.0\n 1.0 0.0 0.0\n 2.0 0.0 0.0\n 0.0 0.0 1.0\n H\n 1\nDirect\n"
+                             " 0.0 0.0 0.0\n\n" + grid)
+    out["huge.xyz"] = "1\nhuge\nH 1e308 0.0 0.0\n"
+    # Molden files with un-normalised contractions (the loader's last-resort repair) and a null shell (zero norm)
+    for k in range(2):
+        for _ in range(50):
+            case = vf.gen_true(rng, "unnorm", "molden", max_l=rng.choice([1, 2]))
+            if case is not None:
+                break
+        else:
+            continue
+        enc = vf.encode(case, "unnorm", rng)
+        last = max(sh["ic"] for sh in enc["shells"])
+        enc["shells"].append({"ic": last, "l": 0, "kind": "c", "exps": [1.0], "coefs": [0.0]})
+        # write_molden emits the shells grouped by centre in list order: the null shell's row comes after the rows
+        # of all shells written before it
+        order = [i for ia in range(len(case["zs"])) for i, sh in enumerate(enc["shells"]) if sh["ic"] == ia]
+        nrow_before = sum(len(gto.molden_labels(enc["shells"][i]["l"], enc["shells"][i]["kind"]))
+                          for i in order[: order.index(len(enc["shells"]) - 1)])
+        for key in ("Ca", "Cb"):
+            if enc[key] is not None:
+                enc[key] = np.insert(enc[key], nrow_before, 0.0, axis=0)
+        out[f"nullshell{k}.molden"] = vf.write_molden(case, enc, rng)
+    return out
+
+
 def check_case(case, work):
-    fname, target, many, explicit, allow, pre = case
-    infile = str(REPO / "iodata" / "test" / "data" / fname)
+    fname, target, many, explicit, allow, pre = case[:6]
+    if len(case) > 7 and case[7] and case[7][0] == "symlink-in":
+        gd = tempfile.mkdtemp(dir=work)
+        real = os.path.join(gd, case[7][1])
+        shutil.copyfile(str(REPO / "iodata" / "test" / "data" / case[7][2]), real)
+        infile = os.path.join(gd, fname)
+        os.symlink(real, infile)
+    elif len(case) > 6:
+        gd = tempfile.mkdtemp(dir=work)
+        infile = os.path.join(gd, fname)
+        with open(infile, "w") as fh:
+            fh.write(case[6])
+    else:
+        infile = str(REPO / "iodata" / "test" / "data" / fname)
     if not os.path.exists(infile):
         return "skip", None
     d = tempfile.mkdtemp(dir=work)
@@ -264,6 +338,57 @@ def check_case(case, work):
     return "ok-failure", None
 
 
+def _case_input(case, work):
+    """(input path, output base name, infmt, outfmt) of a case, as check_case derives them"""
+    fname, target, many, explicit, allow, pre = case[:6]
+    gd = tempfile.mkdtemp(dir=work)
+    if len(case) > 7 and case[7] and case[7][0] == "symlink-in":
+        real = os.path.join(gd, case[7][1])
+        shutil.copyfile(str(REPO / "iodata" / "test" / "data" / case[7][2]), real)
+        infile = os.path.join(gd, fname)
+        os.symlink(real, infile)
+    elif len(case) > 6:
+        infile = os.path.join(gd, fname)
+        with open(infile, "w") as fh:
+            fh.write(case[6])
+    else:
+        infile = str(REPO / "iodata" / "test" / "data" / fname)
+    ext = EXT.get(target, target)
+    name = "FCIDUMP.out" if target == "fcidump" else ("POSCAR.out" if target == "poscar" else f"out.{ext}")
+    if explicit:
+        name = "out.dat2"
+    infmt, outfmt = None, (target if explicit else None)
+    if target.startswith("in:"):
+        infmt, outfmt, name = target[3:], None, "out.xyz"
+    if target == "mkl":
+        outfmt = "molekel" if explicit else None
+    return infile, name, infmt, outfmt
+
+
+def check_convert_case(case, work):
+    """convert() called in this process — the function behind the CLI — against the API calls, on a copy of the input
+    at a path and with a modification time that earlier cases have used with other content: its outcome may depend
+    on the arguments and the file content only."""
+    fname, target, many, explicit, allow, pre = case[:6]
+    infile, name, infmt, outfmt = _case_input(case, work)
+    if not os.path.exists(infile):
+        return "skip", None
+    fixed = os.path.join(work, "fixed")
+    os.makedirs(fixed, exist_ok=True)
+    base = os.path.basename(infile)
+    suffix = os.path.splitext(infile)[1]
+    by_prefix = base.upper().startswith(("FCIDUMP", "POSCAR", "CHGCAR", "AECCAR", "LOCPOT"))  # recognised by a name prefix
+    fin = os.path.join(fixed, ("input" + suffix) if (suffix and not by_prefix) else base)
+    shutil.copyfile(infile, fin)
+    os.utime(fin, (1_000_000_000, 1_000_000_000))
+    a_err, a_bytes = _api_run(fin, os.path.join(tempfile.mkdtemp(dir=work), name), many, infmt, outfmt, allow, pre)
+    f_err, f_bytes = _convert_run(fin, os.path.join(tempfile.mkdtemp(dir=work), name), many, infmt, outfmt, allow, pre)
+    if (f_err, f_bytes) != (a_err, a_bytes):
+        return "bad", (f"convert() in-process: {f_err or 'returns'} with {'the same' if f_bytes == a_bytes else 'different'} "
+                       f"output bytes, the API calls: {a_err or 'return'}")
+    return "ok-" + ("success" if a_err is None else "failure"), None
+
+
 def _cases(ctx):
     rng = ctx.rng
     cases = []
@@ -275,6 +400,16 @@ def _cases(ctx):
             if target in VERBATIM:
                 e = True
             cases.append((fname, target, many, e, a, p))
+    # paths that are symbolic links: the format is inferred from the name given, not from the link target's name
+    for link, target_name, src, tgt in (("in.xyz", "data.sdf", "water.xyz", "xyz"), ("in.sdf", "store.xyz", "example.sdf", "xyz"),
+                                        ("cur.xyz", "frame_0042.pdb", "water.xyz", "pdb")):
+        cases.append((link, tgt, False, False, False, None, None, ("symlink-in", target_name, src)))
+    for name, text in _degenerate_inputs(rng).items():
+        targets = ["molden", "fchk"] if name.endswith(".molden") else (["cube", "xyz"] if name.startswith("CHGCAR") else ["xyz", "pdb"])
+        for t in targets:
+            cases.append((name, t, False, False, rng.random() < 0.5, None, text))
+            if name.endswith(".molden"):
+                cases.append((name, t, False, True, True, None, text))
     return cases
 
 
@@ -291,6 +426,19 @@ def search(ctx):
             ctx.count("search-cli", key, verdict, sample=key)
             if verdict == "bad":
                 ctx.fail(f"cli:{case[1]}:{what.split(':')[0][:60]}", f"{case}: {what}", key)
+        # one after the other, in this process, all on the same few paths
+        order = list(cases)
+        ctx.rng.shuffle(order)
+        for case in order:
+            verdict, what = check_convert_case(case, work)
+            if verdict == "skip":
+                continue
+            key = {"kind": "convert", "case": list(case)}
+            ctx.count("search-convert", key, verdict, sample={"kind": "convert", "case": list(case[:6])})
+            if verdict == "bad":
+                hist = [list(c) for c in order[: order.index(case)] if os.path.splitext(c[0])[1] == os.path.splitext(case[0])[1]][-6:]
+                ctx.fail(f"convert:{case[1]}:{what.split(':')[0][:60]}", f"{case[:6]}: {what}", dict(key, history=hist))
+                break
     finally:
         shutil.rmtree(work, ignore_errors=True)
 
@@ -298,6 +446,10 @@ def search(ctx):
 def replay(ctx, obj):
     work = tempfile.mkdtemp(prefix="vh-c18-")
     try:
+        if obj["input"].get("kind") == "convert":
+            for c in obj["input"].get("history", []):
+                check_convert_case(tuple(c), work)
+            return check_convert_case(tuple(obj["input"]["case"]), work)[0] == "bad"
         return check_case(tuple(obj["input"]["case"]), work)[0] == "bad"
     finally:
         shutil.rmtree(work, ignore_errors=True)
